@@ -30,6 +30,31 @@ def gen(rng, idx):
     return cfg, items
 
 
+def failed_copy_probe(chk):
+    """a commit whose workspace file cannot be renamed into the cache (it has another hard link: the content is copied)
+    and whose copy FAILS half way (file size limit): no partial object may sit at the final address afterwards.
+    Oracle only."""
+    import subprocess
+    from .xvc import XvcRepo
+    xvc = C.ensure_xvc()
+    with XvcRepo(xvc, prefix="c02fc", git=False) as rp:
+        data = (b"0123456789abcdef" * 65536) * 3          # 3 MiB
+        rp.write("big.bin", data)
+        os.link(rp.path("big.bin"), os.path.join(rp.base, "backup-of-big.bin"))
+        e = dict(C.BASE_ENV); e.update(rp.env)
+        cmd = "ulimit -f 1024; trap '' XFSZ; exec %s --skip-git file track big.bin" % xvc
+        subprocess.run(["bash", "-c", cmd], cwd=rp.root, env=e, stdout=subprocess.PIPE, stderr=subprocess.PIPE, timeout=300)
+        o = R.observe_real(rp.root, "Ok")
+        bad = [v for v in R.cas_check(o) if "is writable" not in v and "unexpected file" not in v]
+        chk.count(("failed-copy",), True)
+        if bad:
+            chk.fail("oracle", "a commit whose copy into the cache failed (file size limit, hard-linked source) left: " + "; ".join(bad[:2]),
+                     {"input": {"kind": "failed-copy-probe"}}, name="failedcopy")
+            return
+        # (that a retry of the failed track commits the content after all is NOT asked here: track saves its records
+        #  before the content moves -- the open finding P23 of C07 -- so the retry finds nothing to do)
+
+
 def ext_portion(chk):
     """the same oracle (every object at the address of its own bytes, read-only, in a read-only directory; bytes and
     inodes of existing objects unchanged) after every item of histories with copy, move, remove and untrack -- the
@@ -101,4 +126,5 @@ def run(chk, replay=None):
                    theorems="cas_invariant(_x) / objects_readonly_files(_x) / directories_readonly(_x) / objects_immutable(_x) / cache_monotone(_x) / C02_cas_full_fixed / C02_readonly_full_fixed / relink_class_empty_when_fixed")
     if not replay:
         ext_portion(chk)
+        failed_copy_probe(chk)
     return res
